@@ -445,8 +445,10 @@ impl LockFreeMemoryPool {
             let (current_offset, current_gen) = Self::unpack_head(packed);
 
             if current_offset == LIST_TAIL {
-                // Empty bin, need to allocate new memory
-                return self.allocate_new_block(size);
+                // Empty bin, need to allocate new memory. Carve the full class size:
+                // deallocate() files the block under this bin, so it can later be
+                // handed out for any request of the class.
+                return self.allocate_new_block(FAST_BIN_SIZES[bin_index]);
             }
 
             // Load next pointer from current head
@@ -491,8 +493,8 @@ impl LockFreeMemoryPool {
             }
         }
 
-        // Max retries exceeded, fall back to new allocation
-        self.allocate_new_block(size)
+        // Max retries exceeded, fall back to new allocation (full class size, see above)
+        self.allocate_new_block(FAST_BIN_SIZES[bin_index])
     }
 
     /// Deallocate to fast bin using lock-free stack
